@@ -73,11 +73,11 @@ func verifC21(registry map[uint32]func() bin.Object, sample, n int) {
 }
 
 // VerifC21_tg: a seed-dependent, evenly spread sample of the constructors of the Telegram API
-// schema (tg): 16 of them in the quick tier, 240 in the thorough tier.
+// schema (tg): 64 of them, 16 arbitrary bytes each (thorough tier only).
 func VerifC21_tg() {
 	sample, n := 16, 12
 	if verifrt.Tier() == 1 {
-		sample, n = 240, 20
+		sample, n = 64, 16
 	}
 	verifC21(TypesConstructorMap(), sample, n)
 }
